@@ -74,6 +74,8 @@ type Interp struct {
 	notes     []string
 	stats     struct{ instrs, calls, merges, forks, feas int }
 	curGor    int
+	gorVC     map[int]vclock
+	held      map[int]lockset
 	nextGor   int
 	depth     int
 
@@ -115,6 +117,9 @@ type accEntry struct {
 	spawned int // goroutines started so far (main entries)
 	recvd   int // join tokens received so far (main entries)
 	site    string
+	vc      vclock
+	ins     ssa.Instruction
+	ls      lockset
 }
 
 type mathCall struct{ args []*Term; res *Term }
@@ -129,7 +134,7 @@ func NewInterp(prog *ssa.Program, cfg Config, ts *TermStore, sol *Solver) *Inter
 }
 
 func (in *Interp) logAccess(o *Object, slot int, write bool) {
-	in.acclog = append(in.acclog, accEntry{o, slot, write, in.curGor, in.guardTerm(), in.nextGor, in.recvTotal, ""})
+	in.acclog = append(in.acclog, accEntry{o, slot, write, in.curGor, in.guardTerm(), in.nextGor, in.recvTotal, "", in.curVC(), in.cur, in.held[in.curGor]})
 }
 
 type raceConflict struct {
@@ -325,7 +330,9 @@ func (in *Interp) site(instr ssa.Instruction) string {
 		return name
 	}
 	fn := p.Filename
-	if i := strings.LastIndex(fn, "/repo/"); i >= 0 {
+	if repoRoot != "" && strings.HasPrefix(fn, repoRoot+"/") {
+		fn = fn[len(repoRoot)+1:]
+	} else if i := strings.LastIndex(fn, "/repo/"); i >= 0 {
 		fn = fn[i+6:]
 	}
 	return fmt.Sprintf("%s:%d (%s)", fn, p.Line, name)
@@ -475,6 +482,9 @@ func (in *Interp) implicitFail(what string, okCond *Term) {
 	}
 	in.obligation("no-panic:"+what, "implicit", okCond)
 }
+
+// repoRoot: directory of the repository under test (set by the driver; sites are relative to it)
+var repoRoot string
 
 func (in *Interp) reach(label string) {
 	// vacuity witness: pc must be satisfiable here
